@@ -14,7 +14,7 @@ Directives (one per line, payload = following non-directive lines):
   //@item <kind> <name> [pubfields]       emit a whole item (struct/enum/const/type/fn/impl header text for impl)
   //@impl <normalized impl header>[ #n]   open an impl block; assoc types/consts are emitted automatically
   //@fn <name> [-> <ret>] [#n]            emit a fn (member of the open impl, or a free fn of the file)
-  //@rw <rule> <count> `from` => `to`     rewrite inside the current fn/item (exactly <count> matches; `*` = every match, at least one)
+  //@rw <rule> <count> `from` => `to`     rewrite inside the current fn/item (exactly <count> matches; `*` = every match, at least one; `?` = every match, possibly none)
   //@opaque                               this fn is opaque in this unit (signature only; body dropped, D-body)
   //@attr                                 payload placed before the fn (e.g. #[verifier::external_body])
   //@sig                                  payload placed after the signature (requires/ensures/decreases)
@@ -55,6 +55,11 @@ RULES = {
     "R15": "closure parameter pattern moved into a let-binding: `|(a, b)| e` -> `|p| { let (a, b) = p; e }` (Verus accepts only variable parameters; the replacement text may carry the closure's ghost contract)",
     "R16": "`if c { continue; } rest` at the top level of a for-loop body written as `if c { } else { rest }` (Verus for-loops do not support `continue`)",
     "R17": "`&HashSet | &HashSet` / `&HashSet & &HashSet` (std operator impls whose signature cannot be named in an assume_specification) redirected to prelude wrappers whose bodies are exactly those operator expressions",
+    "R18": "`v.iter().sum::<f32>()` (a provided Iterator method: no specification can be attached to it) redirected to the prelude wrapper `w_f32_sum(&v)` whose body is exactly that expression; its value is the uninterpreted `f32_sum_spec(v@)`",
+    "R19": "`x += e` on f32 (Verus 0.2026.09.13 panics in get_range Float(32) on compound float assignment) written as `x = x + e`",
+    "R20": "`x.to_string()` through Display (core::fmt: no specification can be attached) redirected to the wrapper `w_display_to_string(x)` (a stub: the Display impls are not extracted); the text is the uninterpreted `display_text(x)`",
+    "R21": "`iter.collect()` into a HashSet (vstd specifies collect only for Vec; HashSet is foreign, no FromIteratorSpecImpl can be added) written as `w_collect_id_set(iter)`, a wrapper whose body is exactly `it.collect()` (the postfix call becomes a prefix call: `= x.parents()` / `.collect();` are rewritten separately so that the closure in between stays verbatim)",
+    "R22": "`a.difference(&b).copied().collect()` (hash_set::Difference, Copied: no specification within reach) redirected to the wrapper `w_id_set_difference(&a, &b)` whose body is exactly that expression",
     "R11": "`const X: T = e;` written in Verus's exec-const form `exec const X: T ensures .. { e }` (same initializer expression)",
 }
 
@@ -444,7 +449,7 @@ class Extractor:
             elif cmd == "rw":
                 parts, rest = parse_backticks(arg)
                 r = rest.split()
-                rule, count = r[0], (-1 if r[1] == "*" else int(r[1]))
+                rule, count = r[0], (-1 if r[1] == "*" else None if r[1] == "?" else int(r[1]))
                 if cur_fn is None:
                     if self.impl and not self.impl_open_emitted:
                         it = self.impl["item"]
@@ -545,7 +550,8 @@ class Extractor:
                 keepderive = tuple(o[len("keepderive="):].split(","))
         # bodies of functions that are not verified in this unit (opaque / assumed here / demoted) are dropped (D-body): they
         # play no role in what is verified or assumed, and they need not compile inside this unit
-        opaque = (f.get("assume") or f.get("demoted")) and f["kind"] == "fn" and it.body_open >= 0
+        explicit_eb = any(k == "attr" and "external_body" in t for (k, _, _, t, _) in f["ins"])
+        opaque = (f.get("assume") or f.get("demoted") or explicit_eb) and f["kind"] == "fn" and it.body_open >= 0
         if opaque:
             # opaque function: only the signature is used in this unit; the body is not part of what is verified or
             # assumed here and is dropped (logged as D-body), so that it need not compile inside this unit
